@@ -44,6 +44,13 @@ pub fn run(prop: &str, a: &Args, rep: &mut Report) {
         "C04" => Some(Engine::Cranelift),
         _ => None,
     };
+    // buffers beyond 4 GiB: in-bounds loads, stores and atomic adds at offsets around 2^16, 2^31,
+    // 2^32 and the end of the buffer, JIT-compiled (mon_c02.rs; the interpreter and Cranelift
+    // run the same probes, refused accesses included, under C02 and C11)
+    #[cfg(all(not(miri), any(feature = "std", feature = "stdlite")))]
+    if prop == "C03" {
+        crate::mon_c02::huge_probes(a, rep, Engine::Jit);
+    }
     let batch_n = 512usize;
     // every fourth full batch is also run by 8 threads at once, each on its own VMs (mon_par.rs)
     let batches = std::cell::Cell::new(0u32);
